@@ -44,6 +44,18 @@ class W:
         self.name = 'benign-tree-' + mode
 
 
+class S:
+    """An independently seeded breaking change kept under /verif/seeded/<name>/patch.diff: must make the check fire."""
+    expect = 'fire'
+    mention = None
+    rule = None
+    file = None
+
+    def __init__(self, name, patch):
+        self.name = 'seed-' + name
+        self.patch = patch
+
+
 def _rx(old):
     parts = [re.escape(p) for p in old.split()]
     return re.compile(r'\s+'.join(parts))
@@ -76,6 +88,11 @@ def run_variant(pid, v, base):
     d = tempfile.mkdtemp(prefix='vsa_%s_' % pid, dir=base)
     try:
         copy_tree(d)
+        if isinstance(v, S):
+            p = subprocess.run(['git', 'apply', '--whitespace=nowarn', v.patch], cwd=d, capture_output=True, text=True)
+            if p.returncode != 0:
+                return ('skip', 'seed patch no longer applies: ' + (p.stderr or p.stdout).strip()[:120], '')
+            return _run_check(pid, v, d)
         if isinstance(v, W):
             from .benign import transform
             n = 0
@@ -151,6 +168,12 @@ def run_for(pid, rep, seed):
         return
     from .benign import MODES
     vs = vs + [W(m) for m in MODES]
+    sd = os.path.join(VERIF, 'seeded')
+    if os.path.isdir(sd):
+        for nm in sorted(os.listdir(sd)):
+            pth = os.path.join(sd, nm, 'patch.diff')
+            if nm.startswith(pid) and os.path.exists(pth):
+                vs.append(S(nm, pth))
     rnd = random.Random(seed)
     rnd.shuffle(vs)
     base = tempfile.mkdtemp(prefix='vsa_base_')
